@@ -278,6 +278,10 @@ pub fn run(tier: &str) -> i32 {
         }
         sweep(&st, "G22", Enc::M, 2, None);
         sweep(&st, "G32", Enc::M, 2, None);
+        sweep(&st, "G23", Enc::M, 2, None);
+        sweep(&st, "G22", Enc::U, 2, None);
+        sweep(&st, "T22", Enc::M, 2, Some(8));
+        sweep(&st, "O21", Enc::M, 2, Some(8));
     }
     // float table: regions
     let spec = p_spec(9, st.seed, 1.0, false);
